@@ -89,6 +89,9 @@ func (e *Eval) evalLoopBest(fr *frame, h *ssa.BasicBlock, body map[*ssa.BasicBlo
 	if e.scanLinesLoop(fr, h, body, in, done) {
 		return true
 	}
+	if e.appendBytesLoop(fr, h, body, in, done) {
+		return true
+	}
 	if !fr.containsInner[h] {
 		snap := e.snapshotLoop(fr, done)
 		clean := e.evalLoop(fr, h, body, in, done)
@@ -124,6 +127,8 @@ func (e *Eval) evalLoopUnrolled(fr *frame, h *ssa.BasicBlock, body map[*ssa.Basi
 	for b := range body {
 		done[b] = true
 	}
+	e.loopHeaders = append(e.loopHeaders, h)
+	defer func() { e.loopHeaders = e.loopHeaders[:len(e.loopHeaders)-1] }()
 	var order []*ssa.BasicBlock
 	for _, b := range rpo(fr.fn) {
 		if body[b] && b != h {
@@ -340,7 +345,7 @@ func (e *Eval) evalLoopUnrolled(fr *frame, h *ssa.BasicBlock, body map[*ssa.Basi
 		}
 		// word lookups: every way round the loop must have passed the hit edge
 		for site, o := range e.lkObj {
-			if site.Block() == nil || !body[site.Block()] || !haveBack {
+			if site.Block() == nil || !(body[site.Block()] || e.lkLoopHdr[site] == h) || !haveBack {
 				continue
 			}
 			hit := false
